@@ -1303,6 +1303,135 @@ func runHistory(c *mon.Case, r *mon.Run, base string, hist string, seed uint64) 
 	}
 }
 
+// ---------------------------------------------------------------- part F: concurrent dials
+
+// runConcurrent: the client is given one ticket, then n Dials to the same
+// server run at the same time on the same factory.  All must complete, and
+// the ticket may show up in at most one of the handshakes.
+func runConcurrent(c *mon.Case, r *mon.Run, base string, n int, seed uint64) {
+	rng := mon.NewRand(seed)
+	r.Count("evaluations", 1)
+	dir, err := os.MkdirTemp(base, "f-")
+	if err != nil {
+		c.Violation("harness/mkdir", err.Error(), nil)
+		return
+	}
+	defer os.RemoveAll(dir)
+	sc := newSrv(seed ^ 0xf)
+	addr := &net.TCPAddr{IP: net.IPv4(192, 0, 2, 2), Port: 443}
+	cf, err := newFactory(dir)
+	if err != nil {
+		c.Violation("setup/client-factory", err.Error(), nil)
+		return
+	}
+	wit := map[string]any{"concurrent_dials": n}
+	l0, res0, herr := connect(c, sc, cf, sc.pw, addr, rng.IntN(100), seed)
+	if herr != nil || res0.failed() {
+		c.Violation("dial-failed/concurrent-setup", fmt.Sprintf("server err=%v dial err=%v panic=%q", herr, res0.err, res0.panic), wit)
+		return
+	}
+	body, rec := sc.srv.IssueTicket()
+	l0.sw.Write(l0.sess.Enc.Packet(ss.FlagNewTicket, body, 0))
+	synctest.Wait()
+	l0.close()
+	type one struct {
+		cw, sw *memwire.Conn
+		ch     chan dialResult
+		hch    chan *ss.Hello
+		l      *link
+	}
+	n0 := len(sc.srv.Log())
+	conns := make([]*one, n)
+	for i := range conns {
+		o := &one{hch: make(chan *ss.Hello, 1)}
+		o.cw, o.sw = pair(addr)
+		o.ch = startDial(cf, sc.pw, o.cw)
+		go func() {
+			h, _ := sc.srv.ReadHello(o.sw)
+			o.hch <- h
+		}()
+		conns[i] = o
+	}
+	synctest.Wait() // every client has sent its first message; ticket users have returned from Dial
+	okAll := true
+	for i, o := range conns {
+		var h *ss.Hello
+		select {
+		case h = <-o.hch:
+		default:
+		}
+		if h == nil {
+			res := <-o.ch // ends by the client's own deadline at the latest
+			o.cw.Close()
+			<-o.hch
+			if res.conn != nil {
+				res.conn.Close()
+			}
+			c.Violation("no-valid-handshake/concurrent", fmt.Sprintf("connection %d of %d concurrent dials: the server saw neither UniformDH under k_B nor a valid ticket (dial err=%v panic=%q)", i, n, res.err, res.panic), wit)
+			okAll = false
+			continue
+		}
+		resp, sess := sc.srv.Respond(h, rng.IntN(300), nil)
+		if resp != nil {
+			o.sw.Write(resp)
+		}
+		res := <-o.ch
+		if res.failed() {
+			c.Violation("dial-failed/concurrent-"+h.Type, fmt.Sprintf("connection %d of %d concurrent dials: err=%v panic=%q", i, n, res.err, res.panic), wit)
+			o.cw.Close()
+			o.sw.Close()
+			okAll = false
+			continue
+		}
+		o.l = newLink(c, o.cw, o.sw, res.conn, sess, h, seed+uint64(i))
+		o.l.clientReader(seed ^ uint64(i))
+		o.l.serverReader()
+	}
+	for _, o := range conns {
+		if o.l == nil {
+			continue
+		}
+		var w sync.WaitGroup
+		w.Add(1)
+		nUp := 1 + rng.IntN(100)
+		c.Go(w.Done, func() { o.l.clientWrite(nUp) })
+		o.l.sw.Write(append(o.l.payloadPackets(1+rng.IntN(100), 0, 0), o.l.padPacket(0)...))
+		w.Wait()
+	}
+	synctest.Wait()
+	tickets, udh := 0, 0
+	for _, ev := range sc.srv.Log()[n0:] {
+		switch {
+		case ev.TicketID == rec.ID:
+			tickets++
+		case ev.Type == "udh":
+			udh++
+		}
+	}
+	for _, o := range conns {
+		if o.l != nil {
+			if !o.l.judgeStreams("concurrent-after-"+o.l.hello.Type, wit) {
+				okAll = false
+			}
+			o.l.close()
+		}
+	}
+	wit["ticket_handshakes"], wit["udh_handshakes"] = tickets, udh
+	if tickets > 1 {
+		r.Count("ticket_reuse", 1)
+		c.Violation("ticket-presented-twice/concurrent-dials", fmt.Sprintf("%d of %d concurrent handshakes presented the same ticket", tickets, n), wit)
+		okAll = false
+	}
+	if okAll {
+		r.Count("concurrent_dial_groups_verified", 1)
+		r.Count("concurrent_dials_verified", int64(n))
+		if tickets == 1 {
+			r.Count("control_concurrent_one_used_the_ticket", 1)
+		}
+		r.Distinct("nontrivial", fmt.Sprintf("conc/%d/%x", n, seed))
+	}
+}
+
 // ---------------------------------------------------------------- the check
 
 func safely(c *mon.Case, what string, fn func()) {
@@ -1322,8 +1451,9 @@ func TestCheck(t *testing.T) {
 		"(B) streams: grid of 11 chunk policies x 3 scenarios (client first / server payload, ticket and seed coalesced with the response / long idle gaps), one UniformDH and one ticket connection each, concurrent reader and writer goroutines on the client, PRF streams both ways, server packets of varied payload/padding split with padding-only, seed and ticket packets interleaved. Stream equality is judged at quiescence AFTER the reference server has sent one further padding-only packet: unlike C01 the statement does not promise delivery without further traffic, and this client decodes bytes that arrived together with the handshake response only on its next network read. "+
 		"(C) single-bit modification of one packet (9 classes: payload of 5 sizes, padding-only, full MTU, NewTicket, PRNG seed; regions MAC / 3 header fields / body) followed by > 2*1448 bytes of valid packets: Read must have reported an error at quiescence and everything delivered up to and including the failing Read is a prefix of what was sent, carried by packets before the damaged one (the monitor stops reading at the first error; what a caller that ignores the error would get is not judged). "+
 		"(D) client configured with a different k_B (random / one bit; silent conforming server, and a peer answering under its own secret): Dial must fail (60 s virtual deadline); single-bit flips of Y, padding, M_S, MAC_S and truncation+EOF of the response (PRNG offsets and each of the last 33 offsets): Dial must fail (an error, not a panic). "+
-		"(E) histories over {C connect, I server issues ticket on the open connection, R restart: new ClientFactory on the same state dir, 6/8 advance the virtual clock 6/8 days, X make the ticket file entry undecodable} of length <= 5: every connect must complete and move data, the server's log must never show a ticket twice, an expired ticket, or an unauthenticated hello (so an absent/used/expired/corrupt ticket means UniformDH). A valid ticket MAY be used; that it is used is only a positive control. "+
-		"Non-trivial = a connection that ran to its verdict; distinct = (part, parameters).")
+		"(E) histories over {C connect, I server issues ticket on the open connection, R restart: new ClientFactory on the same state dir, 6/8 advance the virtual clock 6/8 days, X make the ticket file entry undecodable} of length <= 5 (plus PRNG ones of length 6..9): every connect must complete and move data, the server's log must never show a ticket twice, an expired ticket, or an unauthenticated hello (so an absent/used/expired/corrupt ticket means UniformDH). A valid ticket MAY be used; that it is used is only a positive control. "+
+		"(F) 2..6 Dials at the same time on one factory holding one ticket for that server: all complete and move data, the ticket shows up in at most one handshake. "+
+		"Non-trivial = a connection (history / group) that ran to its verdict; distinct = (part, parameters).")
 	base := o4.StateDir("c15")
 
 	// ---------------- (A)
@@ -1595,12 +1725,35 @@ func TestCheck(t *testing.T) {
 	}
 	// a few longer ones that exercise use -> reissue -> restart chains
 	hists = append(hists, "CICICRCIRC", "CIRCIRCIRC", "CI6RC", "CIR8C", "CIXRC", "CIRXC", "CIXC", "CICRC", "CIRCRC", "CI6C6IRC8C")
+	{
+		// PRNG histories of length 6..9, biased towards connect / issue
+		rng := mon.NewRand(r.Sub("hist-long"))
+		const biased = "CCCIIIRR68X"
+		for k := 0; k < r.Pick(60, 1500); k++ {
+			b := make([]byte, 6+rng.IntN(4))
+			for i := range b {
+				b[i] = biased[rng.IntN(len(biased))]
+			}
+			hists = append(hists, string(b))
+		}
+	}
 	for blk := 0; blk*48 < len(hists); blk++ {
 		blk := blk
 		part := hists[blk*48 : min(len(hists), blk*48+48)]
 		r.Bubble(fmt.Sprintf("history/blk%04d", blk), func(c *mon.Case) {
 			for i, h := range part {
 				safely(c, "history", func() { runHistory(c, r, base, h, r.Sub("hist", blk, i)) })
+			}
+		})
+	}
+
+	// ---------------- (F) concurrent dials sharing one stored ticket
+	nConc := r.Pick(8, 160)
+	for bi := 0; bi*8 < nConc; bi++ {
+		bi := bi
+		r.Bubble(fmt.Sprintf("concurrent/%03d", bi), func(c *mon.Case) {
+			for k := 0; k < 8; k++ {
+				safely(c, "concurrent", func() { runConcurrent(c, r, base, 2+(bi+k)%5, r.Sub("conc", bi, k)) })
 			}
 		})
 	}
